@@ -8,25 +8,10 @@ From Coq.Strings Require Import Byte.
 From GI Require Import Lib.Bytes Lib.BytesFacts Gen.TxtarConsts Gen.TxtarWriteConsts
   Txtar.Txtar Txtar.TxtarFacts Txtar.QuoteFacts
   TxtarWrite.Path TxtarWrite.TxtarWrite TxtarWrite.PathFacts TxtarWrite.WriteFacts
-  TxtarWrite.NulFacts TxtarWrite.RelFacts TxtarWrite.GoodWrite.
+  TxtarWrite.NulFacts TxtarWrite.RelFacts TxtarWrite.GoodWrite TxtarWrite.SortFacts.
 Import ListNotations.
 
 Local Arguments savedir_entry : simpl never.
-
-(* ------------------------------------------------------------------ the walk order *)
-
-Lemma insert_file_perm x l : Permutation (insert_file x l) (x :: l).
-Proof.
-  induction l as [|y l IH]; simpl; [apply Permutation_refl|].
-  destruct (path_cmp (fst x) (fst y)); try apply Permutation_refl.
-  eapply Permutation_trans; [apply perm_skip; exact IH|apply perm_swap].
-Qed.
-
-Lemma walk_order_perm t : Permutation (walk_order t) t.
-Proof.
-  induction t as [|x t IH]; simpl; [constructor|].
-  eapply Permutation_trans; [apply insert_file_perm|apply perm_skip; exact IH].
-Qed.
 
 (* ------------------------------------------------------------------ the trees considered *)
 
@@ -81,7 +66,7 @@ Lemma savedir_entry_Some fl p d cl n s :
   ((cl = [] /\ needs_quote (fix_nl d) = false /\ s = fix_nl d) \/
    (cl = uq_line n /\ quote (fix_nl d) = Some s)).
 Proof.
-  unfold savedir_entry, to_slash.
+  unfold savedir_entry, file_entry, to_slash. cbn [fst].
   destruct (dot_skipped fl p); [discriminate|].
   destruct (negb (utf8_valid d)); [discriminate|].
   destruct (needs_quote (fix_nl d)) eqn:EN.
@@ -97,7 +82,7 @@ Lemma savedir_entry_None fl p d :
   dot_skipped fl p = true \/ utf8_valid d = false \/
   (needs_quote (fix_nl d) = true /\ (f_quote fl = false \/ quote (fix_nl d) = None)).
 Proof.
-  unfold savedir_entry.
+  unfold savedir_entry, file_entry. cbn [fst].
   destruct (dot_skipped fl p); [split; auto|].
   destruct (utf8_valid d); simpl; [|split; auto].
   destruct (needs_quote (fix_nl d)).
